@@ -1,0 +1,139 @@
+//go:build verif
+
+package verifhook
+
+import (
+	"fmt"
+	"reflect"
+	"sort"
+)
+
+// KV is one map entry handed out by MapEntries.
+type KV[K comparable, V any] struct {
+	K K
+	V V
+}
+
+// MapEntries returns the entries of m in an order chosen by the simulator:
+// the entries are first put in a canonical order (by key), then permuted by
+// MapOrder(site, n). It is only called from sources rewritten by the
+// /verif/tools/mapseam overlay, which replaces `for k, v := range m`.
+// If the key type has no canonical order the entries keep Go's order and the
+// site is reported to MapOrder as site+"!uncontrolled".
+func MapEntries[M ~map[K]V, K comparable, V any](m M, site string) []KV[K, V] {
+	entries := make([]KV[K, V], 0, len(m))
+	for k, v := range m {
+		entries = append(entries, KV[K, V]{k, v})
+	}
+	if MapOrderFn == nil || len(entries) < 2 {
+		return entries
+	}
+	keys := make([]string, len(entries))
+	for i, e := range entries {
+		s, ok := canonicalKey(e.K)
+		if !ok {
+			MapOrderFn(site+"!uncontrolled", len(entries))
+			return entries
+		}
+		keys[i] = s
+	}
+	idx := make([]int, len(entries))
+	for i := range idx {
+		idx[i] = i
+	}
+	sort.SliceStable(idx, func(a, b int) bool { return keys[idx[a]] < keys[idx[b]] })
+	perm := MapOrderFn(site, len(entries))
+	out := make([]KV[K, V], len(entries))
+	for i := range out {
+		j := i
+		if perm != nil && i < len(perm) && perm[i] >= 0 && perm[i] < len(entries) {
+			j = perm[i]
+		}
+		out[i] = entries[idx[j]]
+	}
+	return out
+}
+
+// ReflectKeys orders the result of reflect.Value.MapKeys the same way.
+func ReflectKeys(keys []reflect.Value, site string) []reflect.Value {
+	if MapOrderFn == nil || len(keys) < 2 {
+		return keys
+	}
+	strs := make([]string, len(keys))
+	for i, k := range keys {
+		switch k.Kind() {
+		case reflect.Pointer, reflect.UnsafePointer, reflect.Chan, reflect.Func, reflect.Interface:
+			MapOrderFn(site+"!uncontrolled", len(keys))
+			return keys
+		}
+		strs[i] = fmt.Sprintf("%020v", k.Interface())
+	}
+	idx := make([]int, len(keys))
+	for i := range idx {
+		idx[i] = i
+	}
+	sort.SliceStable(idx, func(a, b int) bool { return strs[idx[a]] < strs[idx[b]] })
+	perm := MapOrderFn(site, len(keys))
+	out := make([]reflect.Value, len(keys))
+	for i := range out {
+		j := i
+		if perm != nil && i < len(perm) && perm[i] >= 0 && perm[i] < len(keys) {
+			j = perm[i]
+		}
+		out[i] = keys[idx[j]]
+	}
+	return out
+}
+
+func canonicalKey(k any) (string, bool) {
+	switch v := k.(type) {
+	case string:
+		return v, true
+	case interface{ ID() string }:
+		return v.ID(), true
+	}
+	rv := reflect.ValueOf(k)
+	// AST nodes: order by source position of their token
+	if m := rv.MethodByName("Token"); m.IsValid() && m.Type().NumIn() == 0 && m.Type().NumOut() == 1 {
+		tok := m.Call(nil)[0]
+		if tok.Kind() == reflect.Struct {
+			if sp := tok.FieldByName("StartPosition"); sp.IsValid() && sp.Kind() == reflect.Struct {
+				line, col, ch := sp.FieldByName("Line"), sp.FieldByName("Column"), sp.FieldByName("Char")
+				if line.IsValid() && col.IsValid() && ch.IsValid() {
+					return fmt.Sprintf("%012d:%012d:%012d", line.Int(), col.Int(), ch.Int()), true
+				}
+			}
+		}
+	}
+	switch rv.Kind() {
+	case reflect.Struct, reflect.Array:
+		// comparable structs without pointers print canonically
+		if hasPointer(rv.Type()) {
+			return "", false
+		}
+		return fmt.Sprintf("%#v", k), true
+	case reflect.Int, reflect.Int8, reflect.Int16, reflect.Int32, reflect.Int64:
+		return fmt.Sprintf("%020d", rv.Int()+(1<<62)), true
+	case reflect.Uint, reflect.Uint8, reflect.Uint16, reflect.Uint32, reflect.Uint64:
+		return fmt.Sprintf("%020d", rv.Uint()), true
+	case reflect.Bool, reflect.Float32, reflect.Float64:
+		return fmt.Sprintf("%v", k), true
+	}
+	return "", false
+}
+
+func hasPointer(t reflect.Type) bool {
+	switch t.Kind() {
+	case reflect.Pointer, reflect.UnsafePointer, reflect.Chan, reflect.Func, reflect.Interface, reflect.Map, reflect.Slice:
+		return true
+	case reflect.Struct:
+		for i := 0; i < t.NumField(); i++ {
+			if hasPointer(t.Field(i).Type) {
+				return true
+			}
+		}
+	case reflect.Array:
+		return hasPointer(t.Elem())
+	}
+	return false
+}
